@@ -190,6 +190,7 @@ func verifC20Renominate() {
 	enabled := verifChoice(2) == 1
 	w := verifNewWorld(controlling, false, 1, 1)
 	a := w.a
+	a.loop = verifLoop() // public API calls go through the agent loop
 	a.enableRenomination = enabled
 	w.pairAll()
 	value := verifU32()
@@ -303,6 +304,7 @@ func verifC20DeferredSuperseded() {
 func verifC20ControllingReorder() {
 	w := verifNewWorld(true, false, 2, 1)
 	a := w.a
+	a.loop = verifLoop() // public API calls go through the agent loop
 	a.enableRenomination = true
 	w.pairAll()
 	for _, l := range w.locals {
